@@ -94,7 +94,7 @@ def run(ctx):
                         {"scenario": "values", "threads": r["n"], "seed": r["seed"], "round": r["round"], "module": r.get("src"), "what": r["changed"],
                          "how": "c05-race child -scenario values -seed %d -n %d -rounds %d" % (r["seed"], r["n"], r["round"] + 1)})
         for a in r.get("accepted") or []:
-            ctx.finding("frozen-value-mutated:%s" % (a.split('"n":"')[2].split('"')[0] if a.count('"n":"') > 1 else "op"),
+            ctx.finding("frozen-value-mutated:%s" % (a if a.startswith("mscript") else a.split('"n":"')[2].split('"')[0] if a.count('"n":"') > 1 else "op"),
                         "a mutator applied to a frozen shared value returned no error: %s" % a,
                         {"scenario": "values", "threads": r["n"], "seed": r["seed"], "round": r["round"], "module": r.get("src"), "op": a})
     for c in children:
